@@ -406,6 +406,23 @@ def _dispatch_state(prog: Program, col: Collector, refs: Refs):
                 reaches = add is not None and any(is_super_call(n, "add") for n in walk_no_nested(add.node))
                 col.check(reaches, construct, "multipledispatch's type-keyed cache; cleared by Dispatcher.add, which PartialDispatcher.add calls",
                           "PartialDispatcher.add no longer reaches Dispatcher.add: the dispatch cache is never invalidated by new registrations", c.module.loc(node))
+                # ... and nothing on the registration path may put entries (back) into the cache
+                selfa = add.positional[0] if add is not None else "self"
+                for n in (walk_no_nested(add.node) if add is not None else []):
+                    refill = None
+                    if isinstance(n, ast.Call) and isinstance(n.func, ast.Attribute) and n.func.attr in ("update", "setdefault", "__setitem__") \
+                            and isinstance(n.func.value, ast.Attribute) and n.func.value.attr == "_cache" and norm(n.func.value.value) == selfa:
+                        refill = n
+                    if isinstance(n, ast.Assign):
+                        for t in n.targets:
+                            if isinstance(t, ast.Subscript) and isinstance(t.value, ast.Attribute) and t.value.attr == "_cache" and norm(t.value.value) == selfa:
+                                refill = n
+                            if isinstance(t, ast.Attribute) and t.attr == "_cache" and norm(t.value) == selfa and not (isinstance(n.value, (ast.Dict,)) and not n.value.keys) \
+                                    and not (isinstance(n.value, ast.Call) and not n.value.args):
+                                refill = n
+                    if refill is not None:
+                        col.violation(f"{cls_fq}::add::{norm(refill)[:80]}", "the registration path writes entries into the dispatch cache: answers computed before the new rule existed survive it "
+                                      "(the rule chosen depends on earlier dispatches)", c.module.loc(refill))
                 continue
             invalidated = False
             for rname in reg_methods:
